@@ -18,6 +18,7 @@ type normOpts struct {
 	NumKeys bool   `json:"numkeys"`
 	Pol     int    `json:"pol"`
 	MaxIdx  int64  `json:"maxidx,omitempty"` // 0: the default
+	Escape  bool   `json:"escape,omitempty"`
 }
 
 func (o normOpts) opts() []ucfg.Option {
@@ -37,6 +38,9 @@ func (o normOpts) opts() []ucfg.Option {
 	if o.MaxIdx != 0 {
 		out = append(out, ucfg.MaxIdx(o.MaxIdx))
 	}
+	if o.Escape {
+		out = append(out, ucfg.EscapePath())
+	}
 	return out
 }
 
@@ -45,8 +49,8 @@ func (o normOpts) coq() string {
 	if o.MaxIdx != 0 {
 		mx = o.MaxIdx
 	}
-	return fmt.Sprintf("{| n_p := {| p_sep := %s; p_maxIdx := %d; p_numKeys := %s; p_escape := false |}; n_varexp := %s; n_m := {| m_h := %d%%N; m_ft := None |} |}",
-		coqStr(o.Sep), mx, coqBool(o.NumKeys), coqBool(o.VarExp), policyOpts[o.Pol].h)
+	return fmt.Sprintf("{| n_p := {| p_sep := %s; p_maxIdx := %d; p_numKeys := %s; p_escape := %s |}; n_varexp := %s; n_m := {| m_h := %d%%N; m_ft := None |} |}",
+		coqStr(o.Sep), mx, coqBool(o.NumKeys), coqBool(o.Escape), coqBool(o.VarExp), policyOpts[o.Pol].h)
 }
 
 // normObs runs normalize (through the hook) and renders the outcome as an [obs].
